@@ -73,11 +73,12 @@ def run(ctx):
         vf.write_ndjson(fn, events)
         return fn
 
-    # quick: one fast pass over everything (states far behind the furthest one are not expanded; a scenario the fast pass
-    # gets stuck in is validated on its own with the full search before anything is said about it).
-    # thorough: the full search (every order of the silent steps) on every shard.
+    # First a fast pass (states more than `lag` events behind the furthest one are not expanded; quick: 1 event over one
+    # file, thorough: 3 events, one file per shard - the full search of 16-operation scenarios on the dense 4-agent
+    # topologies takes hours); a scenario the fast pass gets stuck in is validated on its own with the full search
+    # (every order of the silent steps) before anything is said about it.
     scens = S.split_scenarios(all_events)
-    lag0 = 1 if quick else 0
+    lag0 = 1 if quick else 3
     if quick:
         groups = [scens]
     else:
@@ -110,8 +111,7 @@ def run(ctx):
             st["n"] += 1
             tag = st["n"]
             scen_j = rest[j]
-            vfull = v if (lag0 == 0 and len(rest) == 1) else \
-                par(ctx, [S.validate_job(write_trace(scen_j, "stuck-%d.ndjson" % tag), "stuck%d" % tag, lag=0)])[0]
+            vfull = par(ctx, [S.validate_job(write_trace(scen_j, "stuck-%d.ndjson" % tag), "stuck%d" % tag, lag=0)])[0]
             st["full_runs"] += 1
             # a rejection may be an artefact of the recording (the state was logged before the mesh was really quiet on
             # this loaded machine): the scenario is recorded again (same seed = same operations) with a much longer
